@@ -101,6 +101,7 @@ func (ex *Exec) resetPath() {
 	ex.inEnv = false
 	ex.objSeq = 0
 	ex.pathUnknown = false
+	ex.auxVars = ex.auxVars[:0]
 	// the literal index is rebuilt per path (a stale literal from a sibling
 	// path must never be taken as implied)
 	ex.pcLits = ex.pcLits[:0]
